@@ -106,6 +106,7 @@ class PathMgr:
         self.pc_axiom: List[bool] = []
         self.alloc_cls: Dict[int, ClassInfo] = {}
         self.bounded: set = set()
+        self.canon_map: Dict[int, Any] = {}
         self.lazy_branching = False
         self.model_cache: List[Any] = []
         self.eq_static: Dict[int, Any] = {}
@@ -453,6 +454,11 @@ class PathMgr:
                 continue
             if z3.is_eq(x) and x.arg(0).sort() == Val:
                 for a, b in ((x.arg(0), x.arg(1)), (x.arg(1), x.arg(0))):
+                    # a havoc / fresh constant assumed equal to a term: reads are canonicalised to the term
+                    if z3.is_const(a) and a.decl().kind() == z3.Z3_OP_UNINTERPRETED and '!' in a.decl().name() \
+                            and not (z3.is_const(b) and '!' in b.decl().name()) and a.get_id() not in self.canon_map:
+                        self.canon_map[a.get_id()] = b
+                for a, b in ((x.arg(0), x.arg(1)), (x.arg(1), x.arg(0))):
                     sid = smt.static_id(b)
                     if sid is not None and sid < 0 and smt.static_id(a) is None:
                         self.eq_static[a.get_id()] = b
@@ -590,6 +596,10 @@ class PathMgr:
             return z3.is_app(a) and a.decl().kind() == z3.Z3_OP_SELECT and z3.is_const(a.arg(0)) \
                 and a.arg(0).decl().name() == 'H_seq'
         return False
+
+    def canon(self, v):
+        m = self.canon_map.get(smt.simp(v).get_id())
+        return m if m is not None else v
 
     def is_old(self, v) -> bool:
         return smt.simp(v).get_id() in self.old_terms
